@@ -197,6 +197,18 @@ def rule_skip(ctx: Ctx) -> None:
         lp = loops[0]
         names = [x.id for x in sorted((x for x in ast.walk(lp["target"]) if isinstance(x, ast.Name)), key=lambda x: (x.lineno, x.col_offset))]
         sel = names[-1] if names else "?"
+        # which element of the loop target receives the selection mask: by its position among the zipped operands
+        zips = [c for c in ast.walk(lp["iter"]) if isinstance(c, ast.Call) and dotted(c.func) == "zip"]
+        inner = next((t for t in ast.walk(lp["target"]) if isinstance(t, ast.Tuple) and any(isinstance(e, ast.Starred) for e in t.elts)), None)
+        if zips and inner is not None:
+            pos = [i for i, a_ in enumerate(zips[0].args) if norm(a_) == fm[0]]
+            plain = [e for e in inner.elts if isinstance(e, ast.Name)]
+            if pos and pos[0] == 0 and isinstance(inner.elts[0], ast.Name):
+                sel = inner.elts[0].id
+            elif pos and pos[0] == len(zips[0].args) - 1 and isinstance(inner.elts[-1], ast.Name):
+                sel = inner.elts[-1].id
+            elif len(plain) == 1:
+                sel = plain[0].id
         appends = [c for c in ast.walk(lp["node"]) if isinstance(c, ast.Call) and isinstance(c.func, ast.Attribute) and c.func.attr == "append"]
         guarded = [c for c in appends if sel in _conds_of(c, lp["node"])]
         tested = any(isinstance(x, ast.Name) and x.id == sel for s_ in ast.walk(lp["node"]) if isinstance(s_, ast.If) for x in ast.walk(s_.test))
